@@ -47,3 +47,4 @@ int main(int argc, char** argv) {
 	if (g_notes) fclose(g_notes);
 	return 0;
 }
+// native counterpart of the engine builtin used by env/vlibc.c (only linked when vlibc.c is, i.e. never natively)
